@@ -521,6 +521,8 @@ class AxisChecker:
         typed = [r for r in roles if r]
         if len(typed) < 2:
             return
+        if len(elts) in (3, 4) and len(set(typed)) == 1:
+            return      # several quantities of one axis grouped together
         if len(elts) == 3:
             cands = [("X", "Y", "Z"), ("Z", "Y", "X"), ("COL", "ROW", "SLC")]
         elif len(elts) == 4:
